@@ -23,12 +23,15 @@
     NodeHost agent panic (C01_no_panic).  Hypothesis on the random source, explicit in every
     statement ([fresh_ok] / [fresh_run]): the replica ids drawn in a round are pairwise distinct and
     were never seen before.
+    Liveness: PROVED - every entry of the view that needs work gets its request in every allowed batch
+    (C01_round_acts); the healed and clean state [Steady] is a fixpoint of the healthy round in which
+    the only possible scheduler outcome is the empty batch (C01_steady_round, C11_quiescent_round).
     NOT PROVED (stated below as [C01_progress_full], [C01_heal_full] : Prop, checked on every run by
-    the closed-loop correspondence, harness/py/c01.py): the liveness half - rank decrease per healthy
-    round and healing within a bound. *)
+    the closed-loop correspondence, harness/py/c01.py): that every LoopInv state REACHES such a state -
+    rank decrease per healthy round and healing within a bound. *)
 From stdpp Require Import gmap.
 From Drummer.Model Require Import DB Sched Fleet FleetRun FleetExample.
-From Drummer.Proofs Require Import DBTimeProofs FleetProofs.
+From Drummer.Proofs Require Import DBTimeProofs FleetProofs FleetLiveProofs.
 Local Open Scope N_scope.
 
 (** * (i) the invariant of all executions *)
@@ -140,6 +143,31 @@ Theorem C01_init_checked : forall st, init_okb st = true -> init_ok st.
 Proof. exact init_okb_sound. Qed.
 Print Assumptions C01_init_checked.
 
+(** * the healed, clean state is a fixpoint of the healthy round (proved part of the liveness side) *)
+
+(* [Steady]: the invariant holds; every defined shard is launched; every host is up with an empty queue
+   and no report in flight; Requests, Outgoing and the kill list are empty; for every shard Drummer's view
+   is at the current membership version and every current member runs on its host and knows that version;
+   every running replica is such a member (no stray); time has started.
+   From such a state ONE healthy round (all hosts report - persisted logs or not -, all hosts execute,
+   Raft catches up, nticks ticks with nticks * step <= ttl, then the scheduler with ANY outcome it is
+   allowed to produce): the scheduler's outcome is necessarily the EMPTY batch (C11: no request at all, no
+   error, no panic), the state is Steady again, and it is healed: every defined shard available in
+   Drummer's view, every current member running on a live host, at least the defined number of members.
+   By induction the fleet stays healed and receives no request in all later healthy rounds. *)
+Theorem C01_steady_round : forall (P : params) (st st' : fstate) (plogs : N -> bool) (nticks : nat) (o : outcome),
+  Steady st -> (0 < nticks)%nat -> N.of_nat nticks * p_step P <= p_ttl P ->
+  healthy_round P plogs nticks o st = Some st' ->
+  o = OBatch [] /\ Steady st' /\ healed P st' = true.
+Proof. exact steady_round. Qed.
+Print Assumptions C01_steady_round.
+
+(* its decidable conjuncts are what the correspondence evaluates (with [healed]) on the final model state of
+   every replayed run *)
+Theorem C01_steady_checked : forall st, LoopInv st -> steady_restb st = true -> Steady st.
+Proof. exact steady_restb_sound. Qed.
+Print Assumptions C01_steady_checked.
+
 (** * (ii), (iii): the liveness half - NOT proved; statements kept visible.
     What is missing: a rank function on LoopInv states (per shard, lexicographic: members whose
     persisted log is not yet reported / failed restorable members / waiting-to-start members /
@@ -201,6 +229,18 @@ Example C01_repair_reached :
   | None => false
   end = true.
 Proof. vm_compute. reflexivity. Qed.
+
+(* the launched state of that run is Steady: C01_steady_round is not vacuous *)
+Example C01_steady_computed :
+  match ex_launched with Some st => init_okb st && steady_restb st | None => false end = true.
+Proof. vm_compute. reflexivity. Qed.
+
+Example C01_steady_inhabited : exists st, ex_launched = Some st /\ Steady st.
+Proof.
+  pose proof C01_steady_computed as H. destruct ex_launched as [st|]; [|done].
+  apply andb_true_iff in H as [H1 H2]. exists st. split; [done|].
+  apply steady_restb_sound; [|done]. by apply init_inv, init_okb_sound.
+Qed.
 
 (* the hypothesis on the random source is satisfiable for every batch with distinct new ids *)
 Example C01_fresh_ok_satisfiable : forall st b,
